@@ -392,15 +392,58 @@ def tasks():
 # --------------------------------------------------------------------------------------------
 # C16 child: hash values under this interpreter's hash seed
 # --------------------------------------------------------------------------------------------
+def _define_c16_tasks():
+    from redun import task
+
+    @task(namespace="verif_c16", name="wf_produce", cache=False)
+    def wf_produce(tree_json: str):
+        """A task whose RESULT is the value of an abstract tree ("hash" leaf family)."""
+        return build(json.loads(tree_json), "hash")
+
+    @task(namespace="verif_c16", name="wf_consume", cache=False)
+    def wf_consume(value):
+        """A task that RECEIVES the value as its argument (and hands it back)."""
+        return value
+
+    @task(namespace="verif_c16", name="wf_main", cache=False)
+    def wf_main(tree_json: str):
+        return wf_consume(wf_produce(tree_json))
+
+    return wf_main
+
+
+def _same_value(a: Any, b: Any) -> bool:
+    try:
+        return canon(abstract(a, "hash"), ordered_dicts=True) == canon(abstract(b, "hash"), ordered_dicts=True)
+    except Exception:
+        return False
+
+
 def hashchild(inp: str, outp: str) -> None:
-    """in: [{id, ords: [tree in insertion order, ...]}];  out: [{id, obs: [[h, o, [ord, ...]], ...]}]
-    with identical (hash, iteration-order tree) observations of one value merged."""
+    """
+    in:  {"jobs": [{id, ords: [tree in insertion order, ...]}], "wf": [{id, tree}]}
+    out: {"jobs": [{id, obs: [[h, r, g, o, [ord, ...]], ...]}], "wf": [{id, h, o, result, arg, call}]}
+
+    Per observation: h = TypeRegistry.get_hash(obj); r = the hash RedunBackendDb.record_value(obj)
+    stored the object under; g = 1 iff backend.get_value(r) gives back an equal value; o = the tree
+    as the object iterates in this interpreter.  Identical observations of one value are merged
+    (an object that iterates and hashes like one already seen is not recorded a second time).
+    "wf": a real Scheduler run  wf_consume(wf_produce(tree))  on the same backend; the hashes the
+    value was recorded under as a task RESULT (CallNode.value_hash) and as a task ARGUMENT
+    (Argument.value_hash), and the call hash of the producing job, are read back from the database.
+    """
+    import logging
+
+    from redun.backends.db import Argument, CallNode, RedunBackendDb
     from redun.value import get_type_registry
 
+    logging.getLogger("redun").setLevel(logging.ERROR)
     reg = get_type_registry()
-    jobs = json.loads(open(inp).read())
+    backend = RedunBackendDb(db_uri="sqlite:///:memory:")
+    backend.load()
+    spec = json.loads(open(inp).read())
     out = []
-    for job in jobs:
+    for job in spec["jobs"]:
         uniq: dict = {}
         for oi, tree in enumerate(job["ords"]):
             obj = build(tree, "hash")
@@ -411,11 +454,48 @@ def hashchild(inp: str, outp: str) -> None:
             o = abstract(obj, "hash")
             key = (h, json.dumps(o, sort_keys=True))
             if key in uniq:
-                uniq[key][2].append(oi)
-            else:
-                uniq[key] = [h, o, [oi]]
+                uniq[key][4].append(oi)
+                continue
+            try:
+                r = backend.record_value(obj)
+            except Exception as e:
+                r = f"ERR:{type(e).__name__}"
+            g = 0
+            if not r.startswith("ERR:"):
+                try:
+                    got, found = backend.get_value(r)
+                    g = int(bool(found) and _same_value(got, obj))
+                except Exception:
+                    g = 0
+            uniq[key] = [h, r, g, o, [oi]]
         out.append({"id": job["id"], "obs": list(uniq.values())})
-    open(outp, "w").write(json.dumps(out))
+
+    wf_out = []
+    if spec.get("wf"):
+        from redun import Scheduler
+
+        wf_main = _define_c16_tasks()
+        scheduler = Scheduler(backend=backend)
+        scheduler.load()
+        try:
+            scheduler.logger.setLevel(logging.ERROR)
+        except Exception:
+            pass
+        session = backend.session
+        for item in spec["wf"]:
+            before = {c for (c,) in session.query(CallNode.call_hash).all()}
+            value = scheduler.run(wf_main(json.dumps(item["tree"], sort_keys=True)))
+            nodes = [n for n in session.query(CallNode).all() if n.call_hash not in before]
+            prod = [n for n in nodes if n.task_name == "verif_c16.wf_produce"]
+            cons = [n for n in nodes if n.task_name == "verif_c16.wf_consume"]
+            if len(prod) != 1 or len(cons) != 1:
+                raise RuntimeError(f"workflow probe: {len(prod)} produce / {len(cons)} consume call nodes")
+            args = session.query(Argument).filter(Argument.call_hash == cons[0].call_hash).all()
+            if len(args) != 1:
+                raise RuntimeError(f"workflow probe: {len(args)} argument rows of wf_consume")
+            wf_out.append({"id": item["id"], "h": reg.get_hash(value), "o": abstract(value, "hash"),
+                           "result": prod[0].value_hash, "arg": args[0].value_hash, "call": prod[0].call_hash})
+    open(outp, "w").write(json.dumps({"jobs": out, "wf": wf_out}))
 
 
 if __name__ == "__main__":
